@@ -169,6 +169,9 @@ namespace sqf
             sqf::runtime::value pop_back() { auto back = m_value.back(); m_value.pop_back(); return back; }
 
             void reverse() { std::reverse(m_value.begin(), m_value.end()); }
+            // Largest size a script may ask for with resize / set (the limit Arma has): the size of the
+            // allocation must not be up to a number in a script
+            static constexpr size_t max_size = 9999999;
             void resize(size_t newsize)
             {
                 auto cursize = m_value.size();
